@@ -20,8 +20,19 @@ enum Color { Red, #[graphql(visible = "vis_c")] Green }
 #[graphql(visible = "vis_a")]
 struct Hid { id: i32, x: i32 }
 #[derive(SimpleObject, Clone)]
-#[graphql(visible = "vis_a")]
+#[graphql(visible = "vis_a", complex)]
 struct Other { id: i32, pal: Option<Pub> }
+#[ComplexObject]
+impl Other {
+    async fn search(&self, filter: Option<Filter>) -> i32 { let _ = filter; 0 }
+}
+/// only used as the argument type of an interface field
+#[derive(InputObject)]
+struct Filter { q: Option<String> }
+/// an interface whose only implementor can be hidden for a request
+#[derive(Interface, Clone)]
+#[graphql(field(name = "search", ty = "i32", arg(name = "filter", ty = "Option<Filter>")))]
+enum Searchable { Other(Other) }
 #[derive(SimpleObject, Clone)]
 struct Pub {
     id: i32,
@@ -51,6 +62,7 @@ impl Query {
     async fn tagged(&self) -> Option<Tagged> { None }
     async fn u(&self) -> Option<U> { None }
     async fn pubs(&self) -> Vec<Pub> { vec![] }
+    async fn searchable(&self) -> Option<Searchable> { None }
     #[graphql(visible = "vis_b")]
     async fn hidden_field(&self) -> Option<Hid> { None }
     async fn with_arg(&self, a: Option<InObj>, #[graphql(visible = "vis_a")] b: Option<i32>) -> i32 { let _ = (a, b); 0 }
